@@ -757,12 +757,12 @@ static void random_request(Rng& rng, uint64_t)
 static void setup()
 {
 	// all shape triples up to 5 (exhaustive in both tiers), `reps` entry draws each
-	uint64_t reps = ctx().count(40, 400);
+	uint64_t reps = ctx().count(40, 2000);
 	add_generator("shapes_upto5_exhaustive", 125 * reps, [](Rng& rng, uint64_t i) {
 		unsigned t = (unsigned) (i % 125);
 		algebra_case(rng, 1 + t / 25, 1 + (t / 5) % 5, 1 + t % 5);
 	});
-	add_generator("shapes_random_upto8", ctx().count(2000, 200000), [](Rng& rng, uint64_t) {
+	add_generator("shapes_random_upto8", ctx().count(2000, 1000000), [](Rng& rng, uint64_t) {
 		unsigned m, n, k;
 		do
 		{
@@ -770,7 +770,7 @@ static void setup()
 		} while(m <= 5 && n <= 5 && k <= 5);
 		algebra_case(rng, m, n, k);
 	});
-	add_generator("object_histories", ctx().count(1500, 150000), [](Rng& rng, uint64_t i) { la::matrix_history_case(rng, i, false); });
+	add_generator("object_histories", ctx().count(1500, 600000), [](Rng& rng, uint64_t i) { la::matrix_history_case(rng, i, false); });
 	build_catalogue();
 	add_generator("unequal_shapes_catalogue", cat.size(), [](Rng&, uint64_t i) { run_request(cat[i]); });
 	add_generator("unequal_shapes_random", ctx().count(400, 20000), random_request);
